@@ -60,10 +60,9 @@ VARIABLES chain,      \* sequence of blocks (each a sequence of transfers)
           cacheLog, diskLog,     \* [Replica -> [keys -> Seq(entry)]]
           cacheInfo, diskInfo,   \* [Replica -> [accounts -> info]]
           gcT,        \* [Replica -> set of blocks whose timestamp the in-memory LRU knows]
-          gcb,        \* [Replica -> bound of the most advanced collection, -1 if none]
-          last        \* last action (for the generator)
+          gcb         \* [Replica -> bound of the most advanced collection, -1 if none]
 
-vars == <<chain, h, fl, cacheLog, diskLog, cacheInfo, diskInfo, gcT, gcb, last>>
+vars == <<chain, h, fl, cacheLog, diskLog, cacheInfo, diskInfo, gcT, gcb>>
 
 TL == INSTANCE TransferLog
 
@@ -130,8 +129,7 @@ AddBlock(r) ==
             /\ cacheLog' = [cacheLog EXCEPT ![r] = res.logs @@ @]
             /\ cacheInfo' = [cacheInfo EXCEPT ![r] = res.infos @@ @]
             /\ h' = [h EXCEPT ![r] = @ + 1]
-            /\ gcT' = [gcT EXCEPT ![r] = @ \cup {h[r] + 1}]
-            /\ last' = [op |-> "add", r |-> r, xs |-> xs, t |-> 0]
+            /\ gcT' = [gcT EXCEPT ![r] = IF r \in GCReplica THEN @ \cup {h[r] + 1} ELSE @]
     /\ UNCHANGED <<fl, diskLog, diskInfo, gcb>>
 
 \* ------------------------------------------------------------------ removeOldTransfers on the backend
@@ -150,7 +148,6 @@ Flush(r) ==
            run    == r \in GCReplica /\ t >= 1 /\ t \in gcT[r]
        IN  /\ diskLog' = [diskLog EXCEPT ![r] = IF run THEN GCApply(merged, t) ELSE merged]
            /\ gcb' = [gcb EXCEPT ![r] = IF run /\ t > @ THEN t ELSE @]
-           /\ last' = [op |-> "flush", r |-> r, xs |-> <<>>, t |-> IF run THEN t ELSE 0]
     /\ diskInfo' = [diskInfo EXCEPT ![r] = cacheInfo[r] @@ @]
     /\ cacheLog' = [cacheLog EXCEPT ![r] = <<>>]
     /\ cacheInfo' = [cacheInfo EXCEPT ![r] = <<>>]
@@ -165,7 +162,6 @@ Restart(r) ==
     /\ cacheInfo' = [cacheInfo EXCEPT ![r] = <<>>]
     /\ fl' = [fl EXCEPT ![r] = h[r]]
     /\ gcT' = [gcT EXCEPT ![r] = {}]
-    /\ last' = [op |-> "restart", r |-> r, xs |-> <<>>, t |-> 0]
     /\ UNCHANGED <<chain, h, gcb>>
 
 \* ------------------------------------------------------------------ SeekNEP17TransferLog(acc, T)
@@ -191,7 +187,6 @@ Init ==
     /\ cacheLog = [r \in Replica |-> <<>>] /\ diskLog = [r \in Replica |-> <<>>]
     /\ cacheInfo = [r \in Replica |-> <<>>] /\ diskInfo = [r \in Replica |-> <<>>]
     /\ gcT = [r \in Replica |-> {}] /\ gcb = [r \in Replica |-> -1]
-    /\ last = [op |-> "init", r |-> "", xs |-> <<>>, t |-> 0]
 
 Next == \E r \in Replica : AddBlock(r) \/ Flush(r) \/ Restart(r)
 
